@@ -12,7 +12,7 @@ CHECKS = {
         "sub-language where unbounded and context-width arithmetic agree by construction ('frag'), unrestricted fragments "
         "guarded by a simulator-side monitor that ends a run where the two semantics legitimately part ('wild'), narrow comb "
         "fragments swept over ALL inputs ('exh'), memories with every port mode/granularity/async/re/init in 1-2 clock domains "
-        "('mem'), and 37 real LiteX designs (36 cores and a whole CPU-less SoCMini) at seeded parameterisations under random stimulus ('corpus'); seeded clock-edge "
+        "('mem'), and 42 real LiteX designs (41 cores or small compositions and a whole CPU-less SoCMini) at seeded parameterisations under random stimulus ('corpus'); seeded clock-edge "
         "interleavings, reset pulses, process orders. Translation validation per program and input sequence, not a proof of "
         "the printer.",
    note="Trusted base: dsim/vsim.py (ours) and dsim/taint.py (the monitor deciding which runs are outside the agreeing "
